@@ -26,7 +26,7 @@ from vf.props.common import harness_error, inconclusive, proved, violation
 ID = "C14"
 LEVEL = "model_checking"
 ITEM_BUDGET_S = {"quick": 500, "thorough": 1800}
-QT = {"quick": 15000, "thorough": 60000}
+QT = {"quick": 15000, "thorough": 30000}
 _TIER = "quick"
 X, Y = ("var", "x"), ("var", "y")
 P = ("param", "p")
